@@ -52,7 +52,7 @@ def gen_tasks(tier, seed):
             tasks.append({"kind": "genset", "numbers": sorted(nums), "total": sum(gens), "mult": 1, "wt": "int", "partition": [part]})
     # several partition constraints (they can push the optimum above the number of input numbers) and inputs that the
     # constructor shrinks (complement pairs x / total-x, the total itself, duplicates)
-    for nums, tot, parts in (([5], 10, [[1, 9], [2, 8]]), ([1, 4, 6, 9], 10, [[5, 5], [3, 7]]), ([3], 10, [[1, 9], [2, 8], [4, 6]]), ([2, 8, 10], 10, [[1, 9], [3, 7]])):
+    for nums, tot, parts in (([5], 5, [[0, 5]]), ([2, 3], 5, [[0, 2, 3]]), ([4], 6, [[0, 6], [2, 4]]), ([5], 10, [[1, 9], [2, 8]]), ([1, 4, 6, 9], 10, [[5, 5], [3, 7]]), ([3], 10, [[1, 9], [2, 8], [4, 6]]), ([2, 8, 10], 10, [[1, 9], [3, 7]])):
         for wt in ("int", "float"):
             tasks.append({"kind": "genset", "numbers": nums, "total": tot, "mult": 1, "wt": wt, "partition": parts})
     for _ in range(6 if tier == "quick" else 400):
